@@ -190,6 +190,7 @@ def r08_s(ctx):
     from . import c02
     ctx.include(c02.r02_10, 'R08.S')
     ctx.include(c07.r07_9, 'R08.S')
+    ctx.include(c07.r07_10, 'R08.S')
 
 
 RULES = [("R08.1", r08_1), ("R08.2", r08_2), ("R08.3", r08_3), ("R08.4", r08_4), ("R08.W", r08_w), ("R08.S", r08_s)]
